@@ -1099,19 +1099,29 @@ class PendingClassDef(_PendingCompoundStmt[ClassDef]):
     def get_result(self) -> list[expr]:
         return_list: list[expr] = []
 
-        class_bases = [expr_transf(self.nsp, _expr) for _expr in self.node.bases]
+        def _header_tmp(_expr: expr) -> Name:
+            # the expressions of the class header run in source order
+            # (decorators, bases, keywords), before the class is created
+            tmp = Name(id=ol_name(OL_CLASS_HEADER_TMP))
+            return_list.append(
+                NamedExpr(target=tmp, value=expr_transf(self.nsp, _expr))
+            )
+            return tmp
+
+        class_decorators = [_header_tmp(_expr) for _expr in self.node.decorator_list]
+        class_bases: list[expr] = [_header_tmp(_expr) for _expr in self.node.bases]
 
         metaclass_expr = None
         class_keywords = []
         for _keyword in self.node.keywords:
             if _keyword.arg == "metaclass":
                 # filter the metaclass keyword
-                metaclass_expr = expr_transf(self.nsp, _keyword.value)
+                metaclass_expr = _header_tmp(_keyword.value)
                 continue
             class_keywords.append(
                 keyword(
                     arg=_keyword.arg,
-                    value=expr_transf(self.nsp, _keyword.value),
+                    value=_header_tmp(_keyword.value),
                 )
             )
 
@@ -1207,15 +1217,11 @@ class PendingClassDef(_PendingCompoundStmt[ClassDef]):
         )
         return_list.append(load_class)
 
-        if self.node.decorator_list:
+        if class_decorators:
             # decorators are applied to the finished class, bottom-up
             decorated: expr = self.nsp.get_load_name(self.node.name)
-            for dec_expr in reversed(self.node.decorator_list):
-                decorated = Call(
-                    func=expr_transf(self.nsp, dec_expr),
-                    args=[decorated],
-                    keywords=[],
-                )
+            for dec_tmp in reversed(class_decorators):
+                decorated = Call(func=dec_tmp, args=[decorated], keywords=[])
             return_list.append(self.nsp.get_assign(self.node.name, decorated))
         return return_list
 
